@@ -4,4 +4,5 @@ set -e
 export CARGO_NET_OFFLINE=true
 cd /verif/engine
 cargo build --release --offline
+cd /repo && CARGO_TARGET_DIR=/verif/work/target-iwe cargo build --release --offline -p iwe
 echo "setup ok"
